@@ -160,6 +160,13 @@ CHECKS["C22"] = ("model_checking",
     "stuck), every computation reported its end, complete assignment, cost = Dcop!Opt, reported (violation, cost) = Dcop!SolutionCost.",
     "Trusted: TLC (Dcop.tla), vlib/orchrt.py and vlib/agentrt.py for the simulated runs. Interleavings are sampled (seeded), not exhausted; there is no behavioural "
     "TLA+ model of the orchestration protocol yet (DESIGN.md section 5).", "DESIGN.md section 4 C22")
+
+CHECKS["C26"] = ("model_checking",
+    "TLC-drawn discovery states x all departed sets with the repair information and constraint value tables defined by RepairInfo.tla, executed on the real reparation functions",
+    "TLC (Gen_C26) draws discovery states (host map, replica sets, computation graph) over 3-4 (quick) / up to 5 agents and 3-4 computations, enumerates every non-trivial set "
+    "of departed agents and prints orphaned computations, candidate agents, the per-candidate info triples and the value of each of the four repair constraints on every 0/1 "
+    "assignment of its scope; the real _removal_* functions run on a real Discovery object with that state and the real create_*_constraint relations (variables built as "
+    "ResilientAgent.setup_repair builds them) are evaluated on every assignment.", _NC, "DESIGN.md section 4 C26")
 NOT_YET = "check not built yet in this snapshot (work in progress, see DESIGN.md section 9)"
 
 fix_commits = subprocess.run(["git", "-C", "/repo", "log", "--format=%h %s", "aeaae91..HEAD"], capture_output=True, text=True).stdout.splitlines()
